@@ -155,6 +155,24 @@ theorem C22_witness_plzout_file :
       (.dir (.cons plzOut (.leaf .file) (.cons ['q'] (.dir (.cons ['B'] (.leaf .file) .nil)) .nil))) = [['q', '/', 'B']] := by
   decide
 
+/-- The two witnesses tied to the facts read from /repo ON THIS RUN (the theorems above are about the hand-written
+    `Facts.canon`): while the blacklist test extracted from the source is the string-prefix one, `findAll facts`
+    misses `output/B`; while godirwalk's cut on a non-directory `SkipDir` is in effect, it misses `q/B`.  After an
+    upstream repair the hypotheses become false and these stop applying, instead of silently describing old code. -/
+theorem C22_witness_blacklist_today (h : CondEquiv C22.blCond Facts.canon.blCond) :
+    findAll facts cfgW1 [] treeW1 = [] ∧ specNames plzOut cfgW1 [] treeW1 ≠ [] := by
+  refine ⟨?_, by decide⟩
+  rw [findAll_eq]; unfold blTest; rw [if_pos h]
+  cases C22.cutOnNonDir <;> decide
+
+theorem C22_witness_nondir_skipdir_today (hc : C22.cutOnNonDir = true) :
+    findAll facts cfgW2 [] treeW2 = [] ∧ specNames plzOut cfgW2 [] treeW2 ≠ [] := by
+  refine ⟨?_, by decide⟩
+  rw [findAll_eq, hc]; unfold blTest
+  split <;> decide
+
+example : CondEquiv C22.blCond Facts.canon.blCond ∧ C22.cutOnNonDir = true := by decide +kernel
+
 /-- **The full-strength statement is refuted** for the structure the source has today. -/
 theorem C22_exact_refuted :
     ¬ ∀ (cfg : Config) (p : List Name) (cs : Forest), Forest.wf cs = true → goodPath p = true →
